@@ -20,7 +20,7 @@ import optax
 import fedjax
 from fedjax.core import for_each_client as fec
 
-from vf.core import Check, Discard, require
+from vf.core import Check, Discard, Violation, require
 
 PROPERTY_ID = 'C01'
 NEEDS_TF = False
@@ -124,8 +124,11 @@ def build_algorithm(case, backend_name, noisy=None):
 
 
 def init_params(case):
-  return {'w': jnp.asarray(np.asarray(case['w0'], np.float32) / 8.0),
-          'b': jnp.asarray(np.float32(case['b0'] / 8.0))}
+  # float64 parameters when the process runs with jax_enable_x64 (only the
+  # child process of the x64 check does)
+  ft = np.float64 if jax.config.jax_enable_x64 else np.float32
+  return {'w': jnp.asarray(np.asarray(case['w0'], ft) / 8.0),
+          'b': jnp.asarray(ft(case['b0'] / 8.0))}
 
 
 def cohort(case, rnd, datasets):
@@ -328,7 +331,51 @@ def run_round_history(case, backend_name, twice=False):
   return out, datasets
 
 
-def run_definition(case):
+def child_definition_x64(case):
+  """Runs in a child interpreter started with JAX_ENABLE_X64=1."""
+  assert jax.config.jax_enable_x64
+  try:
+    extra = run_definition(case, x64=True)
+  except Violation as v:
+    return {'clause': v.clause, 'message': v.message}
+  return {'extra': extra}
+
+
+def _x64_case(c):
+  """jit backend; SGD-family optimizers only (step sizes and momenta are dyadic,
+  so no hyper-parameter is itself rounded: Adam-type optimizers carry constants
+  such as eps = 1e-3 whose float32 / float64 representations differ)."""
+  c = dict(c, backend='jit')
+  for k in ('client_opt', 'server_opt'):
+    if c[k]['name'] not in ('sgd', 'momentum', 'nesterov'):
+      c[k] = dict(c[k], name='momentum')
+  return c
+
+
+def run_definition_x64(case):
+  """float64 server parameters (jax_enable_x64): the round equals its definition
+  to float64 accuracy -- nothing on the way (example counts, the weighted mean,
+  the optimizers) is rounded to float32."""
+  import json
+  import subprocess
+  import sys
+  from vf import env as _env
+  env = _env.worker_env()
+  env['JAX_ENABLE_X64'] = '1'
+  p = subprocess.run([sys.executable, '-m', 'vf.child', 'vf.props.c01', 'child_definition_x64',
+                      json.dumps(case), '--no-tf'], env=env, cwd=_env.VERIF_DIR,
+                     capture_output=True, text=True, timeout=1800)
+  line = [l for l in p.stdout.splitlines() if l.startswith('@@CHILD@@')]
+  if p.returncode != 0 or not line:
+    # an exception inside the tree under test, or a harness problem
+    raise Violation('x64:child_process_failed', p.stderr[-1500:])
+  res = json.loads(line[0][9:])
+  if 'clause' in res:
+    raise Violation('x64:' + res['clause'], res['message'])
+  return res.get('extra', [])
+
+
+def run_definition(case, x64=False):
   """Clause: value equals the mathematical definition, every round, every backend."""
   got, datasets = run_round_history(case, case['backend'])
   ref = KeyedReference(case) if case['noisy'] else Reference(case)
@@ -337,6 +384,8 @@ def run_definition(case):
     want = ref.round(rnd, datasets)
     adaptive = any(case[o]['name'] in ('adam', 'adagrad', 'rmsprop') for o in ('client_opt', 'server_opt'))
     tol = (1e-4 if adaptive else 2e-5) * ref.scale
+    if x64:
+      tol = (1e-9 if adaptive else 1e-11) * ref.scale
     require(close(got[r], want, tol),
             'round_differs_from_definition_under_documented_key_schedule' if case['noisy']
             else 'round_differs_from_definition',
@@ -571,6 +620,13 @@ CHECKS = [
               'drawn from the key): the float64 reference follows the per-step key '
               'schedule of the documented FedAvg client loop (algorithms tutorial: '
               'split the carried key, hand the second half to grad_fn)'),
+    Check(name='definition_float64', run=run_definition_x64,
+          strategy=lambda tier: case_strategy(tier).map(_x64_case),
+          labels=labels, nontrivial=nontrivial,
+          budget={'quick': 80, 'thorough': 800}, time_share=1.0,
+          doc='the definition check in a child interpreter with JAX_ENABLE_X64=1 and '
+              'float64 server parameters, tolerance 1e-11 * scale (1e-9 with adaptive '
+              'optimizers): no example count, weight or update is rounded to float32'),
     Check(name='relations', run=run_relations,
           strategy=lambda tier: case_strategy(tier),
           labels=labels, nontrivial=nontrivial_rel,
